@@ -297,15 +297,18 @@ class Scheduler:
         await asyncio.wait(tasks, timeout=timeout)
 
     async def _gentle_kill(self, proc):
-        if proc is None or proc.returncode is not None:
+        if proc is None:
             return
 
-        # The process may exit on its own at any moment; signalling a process
-        # that is already gone raises ProcessLookupError. The script runs in its
-        # own process group (see try_handle_task), so signal the whole group:
-        # killing only the shell would leave the commands it started running.
+        # The script runs in its own process group (see try_handle_task), so
+        # signal the whole group: killing only the shell would leave the
+        # commands it started running. Do this even if the shell itself has
+        # already exited, since background commands may have outlived it.
+        # Signalling a group that is already gone raises ProcessLookupError.
         with suppress(ProcessLookupError):
             os.killpg(proc.pid, signal.SIGKILL)
+        if proc.returncode is not None:
+            return
         await asyncio.sleep(1)
         if proc.returncode is None:
             await asyncio.sleep(10)
